@@ -448,6 +448,14 @@ std::string run_ga(const std::vector<std::vector<std::string>> &sec)
       i += 2;
       out += rec_vec("W", "-", x, false);
     }
+    else if (o == "WS")
+    {
+      const auto j(std::stoul(ops.at(i + 1)));
+      i += 1;
+      const int same(static_cast<const i_ga &>(x)[j]);
+      x[j] = same;
+      out += rec_vec("WS", "-", x, true);
+    }
     else if (o == "M")
     {
       const double pgm(std::stoul(ops.at(i + 1)) / 1000.0);
@@ -521,6 +529,17 @@ std::string run_de(const std::vector<std::vector<std::string>> &sec)
       i += 1;
       x = x.crossover(0.5, range_t<double>{0.25, 0.75}, y, x, y);
       out += rec_vec("X", "-", x, true);
+    }
+    else if (o == "VS" || o == "VZ")
+    {
+      // x = <its own vector> (VS) / <its own vector with the sign of every zero
+      // flipped> (VZ): equal under operator==, VZ bitwise different
+      std::vector<double> v(static_cast<std::vector<double>>(x));
+      if (o == "VZ")
+        for (auto &e : v)
+          if (e == 0.0) e = -e;
+      x = v;                                    // i_de::operator=(const std::vector<double> &)
+      out += rec_vec(o, "-", x, true);
     }
     else if (o == "LZ")
     {
